@@ -399,13 +399,18 @@ class Model(Object):
                 new.__dict__[attr] = self.__dict__[attr]
         new.notes = deepcopy(self.notes)
         new.annotation = deepcopy(self.annotation)
+        new._compartments = deepcopy(self._compartments)
+        # notes and annotations are (nested) dictionaries owned by each object
+        deep = {"notes", "_annotation"}
 
         new.metabolites = DictList()
         do_not_copy_by_ref = {"_reaction", "_model"}
         for metabolite in self.metabolites:
             new_met = metabolite.__class__()
             for attr, value in metabolite.__dict__.items():
-                if attr not in do_not_copy_by_ref:
+                if attr in deep:
+                    new_met.__dict__[attr] = deepcopy(value)
+                elif attr not in do_not_copy_by_ref:
                     new_met.__dict__[attr] = copy(value) if attr == "formula" else value
             new_met._model = new
             new.metabolites.append(new_met)
@@ -414,7 +419,9 @@ class Model(Object):
         for gene in self.genes:
             new_gene = gene.__class__(None)
             for attr, value in gene.__dict__.items():
-                if attr not in do_not_copy_by_ref:
+                if attr in deep:
+                    new_gene.__dict__[attr] = deepcopy(value)
+                elif attr not in do_not_copy_by_ref:
                     new_gene.__dict__[attr] = (
                         copy(value) if attr == "formula" else value
                     )
@@ -426,7 +433,9 @@ class Model(Object):
         for reaction in self.reactions:
             new_reaction = reaction.__class__()
             for attr, value in reaction.__dict__.items():
-                if attr not in do_not_copy_by_ref:
+                if attr in deep:
+                    new_reaction.__dict__[attr] = deepcopy(value)
+                elif attr not in do_not_copy_by_ref:
                     new_reaction.__dict__[attr] = copy(value)
             new_reaction._model = new
             new.reactions.append(new_reaction)
@@ -444,7 +453,9 @@ class Model(Object):
         for group in self.groups:
             new_group: Group = group.__class__(group.id)
             for attr, value in group.__dict__.items():
-                if attr not in do_not_copy_by_ref:
+                if attr in deep:
+                    new_group.__dict__[attr] = deepcopy(value)
+                elif attr not in do_not_copy_by_ref:
                     new_group.__dict__[attr] = copy(value)
             new_group._model = new
             new.groups.append(new_group)
